@@ -487,8 +487,9 @@ class Exec:
             val = self.ev(st.value, env)
             if isinstance(cur, (Arr, np.ndarray)):
                 # in-place numpy update: same buffer, dtype must be able to hold the result
-                new = self.binop(st.op, cur, val)
                 cur = arrays.lift(cur)
+                snap = Arr(cur.shape, cur.elem, cur.kind, np_dtype=cur.np_dtype)      # contents before the update (cur is mutated below)
+                new = self.binop(st.op, snap, val)
                 if isinstance(new, Arr) and KINDS.index(new.kind) > KINDS.index(cur.kind) and not (isinstance(st.op, ast.Div) and cur.kind == 'float'):
                     raise SymRaise('UFuncTypeError', f'cannot cast {new.kind} to {cur.kind} in place')
                 self.note_store(cur)
